@@ -423,9 +423,11 @@ pub fn lzw_decode(data: &[u8], params: &LZWFlateParams) -> Result<Vec<u8>> {
         Decoder::new(BitOrder::Msb, 8)
     };
 
+    // (into_stream would allocate a 16 MiB scratch buffer for every stream, however small)
     decoder
-        .into_stream(&mut out)
-        .decode_all(data).status?;
+        .into_vec(&mut out)
+        .decode_all(data).status
+        .map_err(|e| PdfError::Other { msg: format!("LZW decode error: {}", e) })?;
     unpredict(out, params)
 }
 fn lzw_encode(data: &[u8], params: &LZWFlateParams) -> Result<Vec<u8>> {
